@@ -489,6 +489,34 @@ Proof.
   destruct (counters_equal_truth cfg rep0 ops H) as [A _]. apply (A h).
 Qed.
 
+(* with VK_EXT_memory_budget (any state, any driver report): usage is the usage fetched from the driver
+   plus what was allocated since the fetch, clamped at 0; the budget is capped by the heap size *)
+Theorem usage_formula_ext cfg s h rep s' bcn acn bbn abn u b cs :
+  budgetExt cfg = true ->
+  bstep cfg s (OHeapBudget h rep) = (s', BBudget bcn acn bbn abn u b, cs) ->
+  u = Z.max 0 (vUsage s' h + bb (heaps s' h) - bbAtFetch s' h) /\
+  b = Z.min (heapSize cfg h) (vBudget s' h) /\
+  bbn = bb (heaps s' h) /\
+  (30 < opsSince s -> cs = [BFetch] /\ opsSince s' = 0 /\
+     forall i, bbAtFetch s' i = if (0 <=? i) && (i <? nHeaps cfg) then bb (heaps s i) else bbAtFetch s i) /\
+  (opsSince s <= 30 -> cs = [] /\ s' = s).
+Proof.
+  intros Hext Hs. cbn [bstep] in Hs. unfold heap_budget in Hs. rewrite Hext in Hs.
+  cbn [andb negb fst snd] in Hs.
+  remember (if 30 <? opsSince s then update_budget cfg s rep else s) as s1 eqn:Hs1.
+  inversion Hs; subst s' bcn acn bbn abn u b cs; clear Hs.
+  split.
+  { destruct (bbAtFetch s1 h <? vUsage s1 h + bb (heaps s1 h)) eqn:E2;
+      [apply Z.ltb_lt in E2|apply Z.ltb_ge in E2]; lia. }
+  split.
+  { destruct (heapSize cfg h <? vBudget s1 h) eqn:E3;
+      [apply Z.ltb_lt in E3|apply Z.ltb_ge in E3]; lia. }
+  split; [reflexivity|].
+  destruct (30 <? opsSince s) eqn:E; [apply Z.ltb_lt in E|apply Z.ltb_ge in E]; subst s1.
+  - split; [|lia]. intros _. split; [reflexivity|]. split; [reflexivity|]. intros i. reflexivity.
+  - split; [lia|]. intros _. split; reflexivity.
+Qed.
+
 (* ------------------------------------------------------------------ the CAS loop *)
 
 Fixpoint cas_ok (maxv : Z) (phs : list phase) (sizes : list Z) : Prop :=
@@ -634,4 +662,5 @@ Print Assumptions count_limit_respected.
 Print Assumptions no_panic_in_domain.
 Print Assumptions failed_alloc_exact.
 Print Assumptions usage_formula.
+Print Assumptions usage_formula_ext.
 Print Assumptions cas_limit_all_interleavings.
